@@ -16,7 +16,7 @@ import (
 )
 
 // C04 (Engine W, batch enumeration): every ordered selection of <= 3 swap requests out of a
-// 15-request alphabet is placed in ONE real block (each request has its own sender and, where
+// 17-request alphabet is placed in ONE real block (each request has its own sender and, where
 // stated, its own recipient so that balance deltas are attributable), alone and together with one
 // price-moving transaction before or after them; the block is followed by an empty block.
 
@@ -72,6 +72,10 @@ func c04Requests() []c04Req {
 		// weight-breaking fee, the per-hop estimate does not); the sender also holds the intermediate denom
 		{Name: "out_2hop_elys_usdc_atom_large_loose", Sender: "r4", In: "uelys", Out: "uatom", ExactOut: true, Amt: 2e10, Limit: 1e13, Mid: "uusdc"},
 		{Name: "out_2hop_elys_usdc_atom_small_loose", Sender: "r5", In: "uelys", Out: "uatom", ExactOut: true, Amt: 1e8, Limit: 1e13, Mid: "uusdc"},
+		// swap-by-denom with a limit QUOTED from its own dry run (99.9 %): the less used of the two message
+		// types that end in the same queued request
+		{Name: "bydenom_usdc_atom_quoted_999", Sender: "r8", In: "uusdc", Out: "uatom", Amt: 1e9, Quote: 0.999},
+		{Name: "bydenom_elys_usdc_quoted_999", Sender: "r7", In: "uelys", Out: "uusdc", Amt: 1e9, Quote: 0.999},
 	}
 	rs[0].Build = in(&rs[0], rin(1, "uatom"))
 	rs[1].Build = in(&rs[1], rin(1, "uatom"))
@@ -89,6 +93,12 @@ func c04Requests() []c04Req {
 	rs[12].Build = in(&rs[12], rin(3, "uusdc"))
 	rs[13].Build = out(&rs[13], rout(2, "uelys"), rout(1, "uusdc"))
 	rs[14].Build = out(&rs[14], rout(2, "uelys"), rout(1, "uusdc"))
+	rs[15].Build = func(w *World, r *c04Req) sdk.Msg {
+		return &ammtypes.MsgSwapByDenom{Sender: w.A(r.Sender).Addr.String(), Amount: C("uusdc", r.Amt), MinAmount: C("uatom", r.Limit), DenomIn: "uusdc", DenomOut: "uatom"}
+	}
+	rs[16].Build = func(w *World, r *c04Req) sdk.Msg {
+		return &ammtypes.MsgSwapByDenom{Sender: w.A(r.Sender).Addr.String(), Amount: C("uelys", r.Amt), MinAmount: C("uusdc", r.Limit), DenomIn: "uelys", DenomOut: "uusdc"}
+	}
 	rs[10].Build = func(w *World, r *c04Req) sdk.Msg {
 		// exact-out by denom: Amount is the wanted OUT amount; MaxAmount (denominated in the out denom by
 		// the message's own rule) caps the input
